@@ -16,10 +16,192 @@ use crate::oracle::groups;
 pub enum Case {
     Scripted(ScriptedCase),
     Real { group: String, shape: ShapeSpec, lj: bool, cfg: OptCfg },
+    /// very long rejection histories: whole inner loops are rejected (`phases`: (loops, accept))
+    /// until whatever the adaptation does with a step that nothing accepts has happened, then
+    /// loops are accepted again.  Runs of 1e9 proposals: a lean state, no trace monitor.
+    Freeze { inner: u64, phases: Vec<(u64, bool)>, max_step_size: f64, k: usize, seed: u64 },
+}
+
+/// lean state for the freeze runs: the score is undefined in rejecting loops and grows with
+/// every call in accepting ones; every proposal is measured against the last accepted vector
+struct FreezeState {
+    vals: Vec<packing::SharedValue>,
+    core: std::sync::Arc<FreezeCore>,
+}
+struct FreezeCore {
+    inner: u64,
+    /// (first call of the phase, accept)
+    phases: Vec<(u64, bool)>,
+    calls: std::sync::atomic::AtomicU64,
+    accepted: Vec<std::sync::atomic::AtomicU64>,
+    worst_bits: std::sync::atomic::AtomicU64,
+    worst_call: std::sync::atomic::AtomicU64,
+    multi: std::sync::atomic::AtomicU64,
+}
+const FREEZE_HALF_RANGE: f64 = 1.0;
+impl State for FreezeState {
+    fn score(&self) -> Option<f64> {
+        use std::sync::atomic::Ordering::Relaxed;
+        let c = &*self.core;
+        let n = c.calls.fetch_add(1, Relaxed);
+        let mut moved = 0;
+        let mut worst = 0f64;
+        for (v, a) in self.vals.iter().zip(c.accepted.iter()) {
+            let x = v.get_value();
+            let y = f64::from_bits(a.load(Relaxed));
+            if x.to_bits() != y.to_bits() {
+                moved += 1;
+                worst = worst.max((x - y).abs() / FREEZE_HALF_RANGE);
+            }
+        }
+        if n == 0 {
+            for (v, a) in self.vals.iter().zip(c.accepted.iter()) {
+                a.store(v.get_value().to_bits(), Relaxed);
+            }
+            return Some(0.);
+        }
+        if moved > 1 {
+            c.multi.fetch_add(1, Relaxed);
+        }
+        if worst > f64::from_bits(c.worst_bits.load(Relaxed)) {
+            c.worst_bits.store(worst.to_bits(), Relaxed);
+            c.worst_call.store(n, Relaxed);
+        }
+        let accept = c.phases.iter().rev().find(|(from, _)| n >= *from).map(|p| p.1).unwrap_or(true);
+        if accept {
+            for (v, a) in self.vals.iter().zip(c.accepted.iter()) {
+                a.store(v.get_value().to_bits(), Relaxed);
+            }
+            Some(n as f64)
+        } else {
+            None
+        }
+    }
+    fn generate_basis(&self) -> Vec<packing::StandardBasis> {
+        self.vals.iter().map(|v| packing::StandardBasis::new(v, -FREEZE_HALF_RANGE, FREEZE_HALF_RANGE)).collect()
+    }
+    fn total_shapes(&self) -> usize {
+        1
+    }
+    fn as_positions(&self) -> Result<String, anyhow::Error> {
+        Ok(String::new())
+    }
+}
+impl Clone for FreezeState {
+    fn clone(&self) -> Self {
+        FreezeState { vals: self.vals.iter().map(|v| packing::SharedValue::new(v.get_value())).collect(), core: self.core.clone() }
+    }
+}
+impl std::fmt::Debug for FreezeState {
+    fn fmt(&self, f: &mut std::fmt::Formatter) -> std::fmt::Result {
+        write!(f, "FreezeState")
+    }
+}
+impl serde::Serialize for FreezeState {
+    fn serialize<Z: serde::Serializer>(&self, s: Z) -> Result<Z::Ok, Z::Error> {
+        s.serialize_unit()
+    }
+}
+impl PartialEq for FreezeState {
+    fn eq(&self, _: &Self) -> bool {
+        true
+    }
+}
+impl Eq for FreezeState {}
+impl PartialOrd for FreezeState {
+    fn partial_cmp(&self, _: &Self) -> Option<std::cmp::Ordering> {
+        Some(std::cmp::Ordering::Equal)
+    }
+}
+impl Ord for FreezeState {
+    fn cmp(&self, _: &Self) -> std::cmp::Ordering {
+        std::cmp::Ordering::Equal
+    }
+}
+impl packing::traits::ToSVG for FreezeState {
+    type Value = svg::Document;
+    fn as_svg(&self) -> svg::Document {
+        svg::Document::new()
+    }
+}
+
+fn check_freeze(c: &Case, st: &mut Stats) {
+    use std::sync::atomic::{AtomicU64, Ordering::Relaxed};
+    let (inner, phases, max_step_size, k, seed) = match c {
+        Case::Freeze { inner, phases, max_step_size, k, seed } => (*inner, phases, *max_step_size, *k, *seed),
+        _ => return,
+    };
+    st.eval();
+    let loops: u64 = phases.iter().map(|p| p.0).sum();
+    let mut from = 1u64;
+    let mut ph = vec![];
+    for (l, a) in phases.iter() {
+        ph.push((from, *a));
+        from += l * inner;
+    }
+    let core = std::sync::Arc::new(FreezeCore {
+        inner,
+        phases: ph,
+        calls: AtomicU64::new(0),
+        accepted: (0..k).map(|_| AtomicU64::new(0)).collect(),
+        worst_bits: AtomicU64::new(0f64.to_bits()),
+        worst_call: AtomicU64::new(0),
+        multi: AtomicU64::new(0),
+    });
+    let state = FreezeState { vals: (0..k).map(|_| packing::SharedValue::new(0.)).collect(), core: core.clone() };
+    let cfg = OptCfg { steps: loops * inner, inner_steps: inner, kt_start: 0., kt_finish: None, kt_ratio: Some(0.), max_step_size, seed, convergence: None, builder_history: None };
+    let b = match cfg.builder() {
+        Ok(b) => b,
+        Err(e) => {
+            st.inconclusive.push(e);
+            return;
+        }
+    };
+    let r = std::panic::catch_unwind(std::panic::AssertUnwindSafe(|| {
+        let _ = b.build().optimise_state(state);
+    }));
+    if r.is_err() {
+        st.count("runs_that_panicked(not a C19 event; C20 decides)");
+        return;
+    }
+    let calls = core.calls.load(Relaxed);
+    st.add("proposals_measured", calls.saturating_sub(2));
+    st.add("proposals_measured_in_freeze_runs", calls.saturating_sub(2));
+    st.nontrivial(hash64(&[hash_str(&serde_json::to_string(c).unwrap_or_default())]));
+    st.count(&format!("freeze_runs[inner {}]", if inner > 10_000 { ">1e4" } else if inner > 100 { "101..1e4" } else { "<=100" }));
+    let _ = core.inner;
+    if calls < loops * inner {
+        st.inconclusive.push(format!("freeze run made {} evaluations, {} proposals were configured", calls, loops * inner));
+        return;
+    }
+    if core.multi.load(Relaxed) > 0 {
+        st.violation(Violation { kind: "c19.run".into(), signature: "optimise_state:proposal-changes-more-than-one-parameter".into(), case: serde_json::to_value(c).unwrap(), detail: json!({"proposals_with_more_than_one_changed_parameter": core.multi.load(Relaxed)}) });
+        return;
+    }
+    let worst = f64::from_bits(core.worst_bits.load(Relaxed));
+    if worst > max_step_size * (1. + 1e-9) + 1e-9 {
+        let call = core.worst_call.load(Relaxed);
+        st.violation(Violation {
+            kind: "c19.run".into(),
+            signature: "optimise_state:move-exceeds-max-step".into(),
+            case: serde_json::to_value(c).unwrap(),
+            detail: json!({"max_step_size": max_step_size, "largest_move_over_half_range": worst, "factor_over_limit": worst / max_step_size, "proposal": call, "inner_loop_of_witness": (call - 1) / inner, "phases(loops, accepted)": phases}),
+        });
+        return;
+    }
+    st.sample(|| json!({"case": c, "largest_move_over_half_range": worst, "limit": max_step_size, "proposals": calls}));
+}
+
+/// rejecting loops enough for a step that shrinks by inner/(inner+1) per fully rejected loop to
+/// fall by `decades` powers of ten, then accepting loops, then both again
+fn freeze_case(inner: u64, decades: f64, seed: u64) -> Case {
+    let n = (decades * std::f64::consts::LN_10 * (inner as f64 + 1.)).ceil() as u64 + 2;
+    Case::Freeze { inner, phases: vec![(n, false), (3, true), (40, false), (3, true)], max_step_size: [1., 0.5, 0.01][(seed % 3) as usize], k: 3, seed }
 }
 
 fn cfg_of(c: &Case) -> &OptCfg {
     match c {
+        Case::Freeze { .. } => unreachable!("freeze cases are judged by check_freeze"),
         Case::Scripted(s) => &s.cfg,
         Case::Real { cfg, .. } => cfg,
     }
@@ -78,6 +260,7 @@ fn declared_ranges<T: State>(s: &T, group: &str) -> Vec<(f64, f64)> {
 
 pub fn check(c: &Case, st: &mut Stats) {
     match c {
+        Case::Freeze { .. } => check_freeze(c, st),
         Case::Scripted(sc) => {
             let r = mc::run_scripted(sc, false);
             judge(c, &r, st);
@@ -148,12 +331,31 @@ pub fn gen_case<R: Rng>(rng: &mut R, real: bool) -> Case {
 }
 
 pub fn run(ctx: &Ctx) {
-    ctx.set_rule("every proposal of optimise_state is measured against every possible current state (trace monitor): its single changed parameter may move by at most max_step_size x half the parameter's range (ranges: the chosen bounds of scripted states; for real hard/LJ states the ranges declared by the property at stage start). Rejection histories are forced by scripts (0/50/75/99/100% rejection per loop, reject runs, alternation, undefined scores), 1..50 inner loops (the step adaptation acts between loops), steps 1e-8..1, k = 1..24 parameters, all temperatures. Non-trivial = runs with >= 3 inner loops; distinct by case");
+    ctx.set_rule("every proposal of optimise_state is measured against every possible current state (trace monitor): its single changed parameter may move by at most max_step_size x half the parameter's range (ranges: the chosen bounds of scripted states; for real hard/LJ states the ranges declared by the property at stage start). Rejection histories are forced by scripts (0/50/75/99/100% rejection per loop, reject runs, alternation, undefined scores), 1..50 inner loops (the step adaptation acts between loops), steps 1e-8..1, k = 1..24 parameters, all temperatures. Plus freeze-and-release runs on a lean state (no trace monitor, moves measured against the last accepted vector): every loop rejected for as many loops as it takes a step that shrinks by inner/(inner+1) per rejected loop to fall by 2-8 decades, then accepting loops, then both again - loops of 1..300 proposals, and loops of more than 10^4 proposals (about 1e9 proposals per run). Non-trivial = runs with >= 3 inner loops; distinct by case");
     let n_s = ctx.tier.pick(70u64, 3_500u64);
     let n_r = ctx.tier.pick(6u64, 250u64);
     let prev = std::panic::take_hook();
     std::panic::set_hook(Box::new(|_| {}));
-    par_shards(ctx, 19, 64, |_, rng, st| {
+    let tier = ctx.tier;
+    par_shards(ctx, 19, 64, |i, rng, st| {
+        // freeze-and-release runs: many short ones (loops of 1..300 proposals, 2-8 decades of
+        // shrinking), and runs whose loops are longer than any internal floor of the step
+        // is small (1e9 proposals and more; one in quick, one per core in thorough)
+        for _ in 0..tier.pick(3u64, 40u64) {
+            let inner = [1u64, 2, 3, 10, 50, 300][rng.gen_range(0, 6)];
+            check(&freeze_case(inner, rng.gen_range(2., 8.), rng.gen()), st);
+        }
+        let long = match tier {
+            Tier::Quick => i == 0,
+            Tier::Thorough => i < 16,
+        };
+        if long {
+            let inner = match tier {
+                Tier::Quick => rng.gen_range(10_050, 10_400),
+                Tier::Thorough => rng.gen_range(10_050, 22_000),
+            };
+            check(&freeze_case(inner, 4.02, rng.gen()), st);
+        }
         for _ in 0..n_s {
             check(&gen_case(rng, false), st);
         }
